@@ -924,7 +924,14 @@ impl Gen {
             6 if !c.is_empty() => { c[k].1 = c[k].1.saturating_mul(2); }
             // the same amount under a denom that differs by letter case only (denoms are case-sensitive)
             7 | 8 if !c.is_empty() => { if let Some(t) = case_twin(c[k].0) { c[k].0 = t; } }
-            3 => { c.push((r.below(ND), 1 + r.below(1000) as u128)); }
+            3 => { let a = if r.chance(1, 2) { 1 + r.below(1000) as u128 } else { amt_rel(r, self.unit.saturating_mul(100)) }; c.push((r.below(ND), a)); }
+            // an extra coin of the *other* pair asset's kind is the interesting one: the last declared asset's neighbour
+            9 if !assets.is_empty() => {
+                if let Some((A::N(d), amt)) = assets.iter().rev().find(|(a, _)| matches!(a, A::N(_))).copied() {
+                    let other = (d + 1 + r.below(ND - 1)) % ND;
+                    c.push((other, amt / (1 + r.below(50) as u128) + 1));
+                }
+            }
             4 => { c.insert(0, (r.below(ND), r.below(3) as u128)); }
             _ => {}
         }
@@ -1114,8 +1121,15 @@ impl Gen {
                 let named = match r.below(24) { 0 => if offer == pm.a0 { pm.a1 } else { pm.a0 }, 1 => self.any_asset(e, r), _ => offer };
                 let named_amt = match r.below(36) { 0 => amt.saturating_add(1), 1 => amt.saturating_sub(1), 2 => 0, _ => amt };
                 match offer {
-                    A::N(_) => {
-                        let funds = self.funds_for(r, &[(offer, amt)]);
+                    A::N(od) => {
+                        let mut funds = self.funds_for(r, &[(offer, amt)]);
+                        // sometimes coins of the *ask* denom ride along (a donation that is credited before pricing)
+                        let (ask, rask) = if offer == pm.a0 { (pm.a1, r1) } else { (pm.a0, r0) };
+                        if let A::N(ad) = ask {
+                            if ad != od && r.chance(1, 20) && !funds.iter().any(|f| f.0 == ad) {
+                                funds.push((ad, (rask / (2 + r.below(100) as u128)).min(e.bal(ask, u) / 4) + 1));
+                            }
+                        }
                         Op::Swap { s: u, p: pm.addr, funds, offer: named, amt: named_amt, belief, ms, to }
                     }
                     A::T(t) => {
@@ -1169,6 +1183,24 @@ impl Gen {
                 Op::Provide { s, p: pm.addr, funds, as0: x0, am0: m0, as1: x1, am1: m1, tol, rcv }
             }
             "withdraw" => {
+                // "whatever other actors did before": sometimes another account acts on the pair right before the withdrawal
+                if r.chance(1, 6) {
+                    let g = e.users[4];
+                    let any = A::N(r.below(ND));
+                    let own = if r.chance(1, 2) { pm.a0 } else { pm.a1 };
+                    let (a, amt) = match r.below(6) {
+                        0 => (any, 1),
+                        1 => (any, e.bal(any, g) / 2),
+                        2 => (own, 1),
+                        3 => (own, e.bal(own, g) / 2),
+                        4 => (A::T(pm.lp), e.bal(A::T(pm.lp), g) / 2 + 1),
+                        _ => (own, amt_rel(r, self.unit)),
+                    };
+                    match a {
+                        A::N(d) => { e.step(Op::BankSend { s: g, d: pm.addr, coins: vec![(d, amt)] }); }
+                        A::T(t) => { e.step(Op::TokTransfer { t, s: g, d: pm.addr, amt }); }
+                    }
+                }
                 let holders: Vec<u64> = e.users[1..5].iter().copied().filter(|h| e.bal(A::T(pm.lp), *h) > 0).collect();
                 let holder = if holders.is_empty() || r.chance(1, 10) { *r.pick(&e.users[1..5].to_vec()) } else { *r.pick(&holders) };
                 let b = e.bal(A::T(pm.lp), holder);
@@ -1192,8 +1224,13 @@ impl Gen {
                 Op::TokTransfer { t: pm.lp, s: u, d: pm.addr, amt: b / (2 + r.below(20) as u128) + 1 }
             }
             "donate" => {
-                let a = if r.chance(1, 2) { pm.a0 } else { pm.a1 };
-                let amt = if r.chance(1, 5) { e.bal(a, u) / (2 + r.below(50) as u128) } else { amt_rel(r, self.unit) };
+                // mostly one of the pair's own assets; sometimes a coin the pair has nothing to do with (it just sits there)
+                let foreign = r.chance(1, 5);
+                let a = if foreign { A::N(r.below(ND)) } else if r.chance(1, 2) { pm.a0 } else { pm.a1 };
+                let amt = if foreign {
+                    // dust, a fortune, or something in between
+                    match r.below(3) { 0 => 1, 1 => e.bal(a, u) / 2, _ => amt_rel(r, self.unit) }
+                } else if r.chance(1, 5) { e.bal(a, u) / (2 + r.below(50) as u128) } else { amt_rel(r, self.unit) };
                 let dst = if r.chance(1, 6) { e.router } else { pm.addr };
                 match a {
                     A::N(d) => Op::BankSend { s: u, d: dst, coins: vec![(d, amt)] },
